@@ -87,6 +87,8 @@ pub mod dp;
 pub mod fdl;
 pub mod phy;
 pub mod time;
+#[cfg(feature = "verif-hooks")]
+pub mod verif;
 
 #[cfg(all(test, feature = "std"))]
 pub mod test_utils;
